@@ -39,7 +39,7 @@ ASSUMPTIONS = ["fewer than 2^15 messages are submitted per direction (exactly-on
 
 
 def route(case):
-    return "disp" if case.startswith(("disp", "sccrq", "full", "rws", "overlap", "stopccn", "sccrqdup", "idle", "runner", "estab", "e2e")) else "chan"
+    return "disp" if case.startswith(("disp", "sccrq", "full", "rws", "overlap", "stopccn", "sccrqdup", "idle", "runner", "estab", "e2e", "multi")) else "chan"
 
 
 ORIGINS = [0, 0, 1, 0x7ffd, 0x7ffe, 0x7fff, 0x8000, 0x8001, 0xfffc, 0xfffd, 0xfffe, 0xffff]
@@ -56,7 +56,7 @@ PROFILES = {
 
 def gen_conf(rng, small=True):
     return [rng.choice([100, 100, 300, 1000, 0]), rng.choice([400, 400, 1000, 8000, 0]),
-            rng.choice([1, 2, 3, 3, 5, 0]), rng.choice([50, 50, 200, 0]),
+            rng.choice([1, 2, 3, 3, 4, 5, 6, 0]), rng.choice([50, 50, 200, 0]),
             rng.choice([1, 1, 2, 2, 3, 4, 0, 16])]
 
 
@@ -121,7 +121,7 @@ def gen_pair(rng, nops, profile, hostile=False, nmsg=8, bigwin=False):
                 continue
             body = (100 if x == "A" else 200) + nsub[x]
             nsub[x] += 1
-            ops.append("s%s:%d:%d:%d" % (x, body, rng.choice([0, 0, 7, 65535]), t))
+            ops.append("s%s:%d:%d:%d" % (x, body, rng.choice([0, 0, 7, 255, 256, 257, 0x1234, 65535]), t))
         elif r < w[0] + w[1]:
             ops.append("d%s:0:%d" % (x, t))
         elif r < w[0] + w[1] + w[2]:
@@ -240,6 +240,41 @@ def gen_estab(rng, n):
             for _ in range(rng.choice([0, 0, 1, 2, 4])):
                 steps.append("r%d" % rng.randrange(sent))
         out.append("estab %s %s" % (role, " ".join(steps)))
+    return out
+
+
+def gen_multi(rng, n):
+    """several control connections in one LNS whose keys (peer address, peer's Assigned Tunnel ID) differ in exactly one
+    component — each address byte in turn, tunnel ids with the same low / same high byte — driven through the real Dispatch:
+    SCCRQs and their copies, in-order traffic, sessions, a message arriving from the other connection's source address,
+    teardown and late copies.  Our own tunnel ids are allocated per peer, so connections of different peers share them."""
+    out = []
+    keys = [("A", 99), ("B", 99), ("C", 99), ("D", 99), ("E", 99), ("A", 355), ("A", 25443), ("A", 25344)]
+    pairs = [(keys[0], k) for k in keys[1:]] + [(keys[5], keys[6]), (keys[1], ("B", 355)), (keys[2], ("D", 355))]
+    for (p1, a1), (p2, a2) in pairs:
+        k1, k2 = "%s:%d" % (p1, a1), "%s:%d" % (p2, a2)
+        out.append("multi q:%s q:%s q:%s h:%s h:%s i:%s i:%s c:%s:1 h:%s w:%s:%s w:%s:%s i:%s s:%s q:%s q:%s h:%s s:%s q:%s q:%s" % (
+            k1, k2, k1, k1, k2, k1, k1, k1, k2, k1, p2, k2, p1, k2, k1, k1, k2, k2, k2, k2, k1))
+    allk = ["%s:%d" % (p, a) for p in "ABCDE" for a in (99, 355, 25443)]
+    for _ in range(n):
+        ks = rng.sample(allk, rng.choice([2, 3, 4]))
+        ops = ["q:" + k for k in ks]
+        for _ in range(rng.randrange(4, 24)):
+            k = rng.choice(ks)
+            r = rng.random()
+            if r < 0.2:
+                ops.append("q:" + k)
+            elif r < 0.5:
+                ops.append("h:" + k)
+            elif r < 0.65:
+                ops.append("i:" + k)
+            elif r < 0.75:
+                ops.append("c:%s:%d" % (k, rng.choice([1, 1, 2, 3])))
+            elif r < 0.9:
+                ops.append("w:%s:%s" % (k, rng.choice("ABCDE")))
+            else:
+                ops.append("s:" + k)
+        out.append("multi " + " ".join(ops))
     return out
 
 
@@ -382,6 +417,7 @@ def gen_cases(rng, tier, budget):
     cases += gen_runner()
     cases += gen_estab(rng, 120 if quick else 1500)
     cases += gen_e2e(rng, quick)
+    cases += gen_multi(rng, 60 if quick else 600)
     # advertised Receive Window Size through the real establishment path; exhaustive over the small grid
     for w in ["-", "0", "1", "2", "3", "4", "8", "16", "32"]:
         cases.append("rws lac %s 0 0" % w)
@@ -629,6 +665,12 @@ def first_diff(a, b):
 
 
 def classify(case, impl, model):
+    if case.startswith("multi"):
+        d = first_diff(impl, model)
+        ops = case.split()[1:]
+        where = ops[d[0] - 1] if d and 0 < d[0] <= len(ops) else "?"
+        return "P", ("several control connections in one LNS: after %s the tunnels are %r but must be %r (peerIP/peerTunnelID/localID:Nr{sessions}) — "
+                     "a message or SCCRQ was delivered to the wrong control connection, twice, or not at all" % (where, d and d[1], d and d[2]))
     if case.startswith("runner"):
         return "P", ("the tunnel runner violates its contract: a (re)transmission more than -120/+400 ms off its deadline, or an inbound "
                      "message not acknowledged by max(arrival + 500 ms, earliest pending retransmission deadline) + 400 ms "
@@ -665,6 +707,8 @@ def nontrivial(case, out):
         return any(t.endswith(":A1") for t in toks)
     if case.startswith("runner"):
         return len(toks) > 2
+    if case.startswith("multi"):
+        return ";" in out
     if case.startswith("estab"):
         return any(x[0] == "r" for x in case.split()[2:])
     if case.startswith("e2e"):
@@ -684,7 +728,7 @@ def shrink(case):
         head, ops = t[:13], t[13:]
     elif t[0] == "disp":
         head, ops = t[:2], t[2:]
-    elif t[0] == "e2e":
+    elif t[0] in ("e2e", "multi"):
         head, ops = t[:1], t[1:]
     elif t[0] in ("full", "runner", "estab"):
         head, ops = t[:2], t[2:]
